@@ -10,6 +10,7 @@ case "$ID" in
   C01|C03|C04|C05|C06|C08|C20)
     B=$(scripts/e1bin.sh) || exit 2
     export VERIF_E1NATIVE=$B/e1native VERIF_REWRITES=$B/rewrites.json VERIF_TREE_HASH=$(basename $B)
+    if [ "${EXTRA[0]}" = "--replay" ]; then exec $B/e1 replay "${EXTRA[1]}"; fi
     exec $B/e1 run $ID --tier $TIER ;;
   *)
     lid=$(echo $ID | tr A-Z a-z)
